@@ -99,6 +99,16 @@ class Run:
         if p.returncode not in ok_codes:
             log(p.stdout[-3000:])
             log(p.stderr[-6000:])
+            crash = real_code_panic(p.stderr)
+            if crash:
+                # The repository's own code panicked while executing an operation / query of the property's quantifier
+                # (the drivers run the same deterministic inputs on which the unchanged tree does not panic): that is a
+                # behaviour of the real code no specification explains.
+                self.violation("the real code panicked in %s (%s) while the driver executed: %s" % (
+                    crash["func"], crash["msg"], " ".join(map(str, args))),
+                    {"property": self.pid, "driver_args": [str(a) for a in args], "panic": crash["msg"],
+                     "stack": crash["stack"], "seed": self.seed, "tier": self.tier})
+                self.finish()
             raise Undecided("harness driver failed (exit %d): %s" % (p.returncode, " ".join(map(str, args))))
         return p.stdout
 
@@ -249,6 +259,26 @@ class Run:
             sys.exit(2)
         log("OK property=%s tier=%s seed=%d wall=%.1fs" % (self.pid, self.tier, self.seed, time.time() - self.t0))
         sys.exit(0)
+
+
+def real_code_panic(stderr):
+    """If stderr is a Go panic (or a fatal concurrent-map error) whose first frame outside the Go runtime lies in the
+    repository's own packages (not in the harness), returns {msg, func, stack}; otherwise None."""
+    m = re.search(r"(?m)^(panic: .*|fatal error: concurrent map .*)$", stderr or "")
+    if not m:
+        return None
+    tail = stderr[m.start():]
+    g = re.search(r"(?m)^goroutine \d+ \[[^\]]*\]:\n", tail)
+    if not g:
+        return None
+    frames = [l for l in tail[g.end():].split("\n\n")[0].splitlines() if l and not l.startswith("\t")]
+    for f in frames:
+        if f.startswith(("panic(", "runtime.", "runtime/", "sync.", "sync/", "internal/", "reflect.", "testing.")) or f.startswith("created by"):
+            continue
+        if f.startswith("github.com/xuperchain/xupercore/"):
+            return {"msg": m.group(1)[:300], "func": f[:f.rfind("(")][:200], "stack": tail[:3000]}
+        return None
+    return None
 
 
 def _apply_consts(cfgtxt, consts):
